@@ -351,6 +351,17 @@ def _work_api(item, seed, tier):
     return acc
 
 
+def _work_two(item, seed, tier):
+    acc = core.Acc()
+    for p in item:
+        p = dict(p, seed=seed)
+        v = c03_api.case_two_pairings(p)
+        acc.case(key=("two", core.jsonable(p)), outcome=f"two:{'ok' if not v else v[0][0]}", sample={"case": "two_pairings", "params": p}, symbols=("two_pairings",))
+        for sig, detail in v:
+            acc.violation(sig, "two_pairings", p, detail)
+    return acc
+
+
 def _work(item, seed, tier):
     acc = core.Acc()
     for p in item:
@@ -415,6 +426,11 @@ def run(ctx):
     ctx.pmap(_work, [plist[i : i + 12] for i in range(0, len(plist), 12)])
     hs = list(c03_api.histories(ctx.tier, ctx.seed))
     ctx.pmap(_work_api, [hs[i : i + 8] for i in range(0, len(hs), 8)])
+    import itertools as _it
+
+    two = [{"transports": list(c)} for n_ in ((2,) if quick else (2, 3)) for c in _it.product(("ip", "ble", "coap"), repeat=n_)]
+    ctx.pmap(_work_two, [two[i : i + 3] for i in range(0, len(two), 3)])
+    ctx.bounds.update(pairings_in_one_process=[t["transports"] for t in two][:12])
     ctx.bounds.update(api_histories=len(hs), api_alphabet="start | finish(right) | finish(wrong) | link loss at every transport operation of an attempt; length <= " + ("4" if quick else "5"))
     ctx.exhaustive = True
     ctx.bounds.update(configs=len(cfgs), styles=list(pairdrv.STYLES), bits="one bit per byte (seed-selected)" if quick else "all bits")
